@@ -29,6 +29,7 @@ def check(ctx):
         results[mode] = load_result(out)
         files.append(tf)
     drive("crash", [])
+    drive("tear", [])
     drive("sigkill", ["-runs", "40" if quick else "1500"])
     recs, violations, drift = judge(ctx, "C12", files, "C12")
     c = results["crash"]["counters"]
@@ -42,7 +43,8 @@ def check(ctx):
               "Cache.tla. distinct_nontrivial = distinct traces. %s real SIGKILL runs of a writer process." % (
                   res.emits, results["sigkill"]["counters"].get("sigkill_runs", 0))),
         samples=results["crash"]["samples"][:3],
-        traces_validated_against_impl=len(recs), injections=dict(crash=c.get("inject_crash", 0), fail=c.get("inject_fail", 0), short=c.get("inject_short", 0)),
+        traces_validated_against_impl=len(recs), injections=dict(crash=c.get("inject_crash", 0), fail=c.get("inject_fail", 0), short=c.get("inject_short", 0),
+                                                                     torn_index_write_then_halt=results["tear"]["counters"].get("inject_tear", 0)),
         l2_conformant=(len(drift) == 0), drift_total=len(drift), drift=drift[:5], bug_configs_rejected_by_tlc=bugs, exhaustive=True)
     return conclude(ctx, violations, "model_checking", coverage, ASSUME)
 
